@@ -122,6 +122,88 @@ def ob_reinsert_once(run, mir, rp):
         ob.inconclusive(str(e))
 
 
+def ob_parser_loops(run, mir, rp):
+    """The parser's generic loops go round only when there is a token left that is not Eof, and hand it to a body that succeeded."""
+    ob = run.ob("parser-loop-guards", "E2", "LexIterator::peek_while_fn goes round its loop only if a token is left, the caller's test holds for "
+                "it, it is not Eof and the loop body returned Ok (an error ends the loop at once); eat_while goes round only through eat_if on "
+                "a token that compared equal - so every round trip either consumes a token or belongs to a body that did not fail",
+                ["LexIterator::peek_while_fn", "LexIterator::eat_while"])
+    try:
+        IT_RS = "src/parse/iterator.rs"
+        claims = []
+        fn = e2.find1(mir, file=IT_RS, impl="LexIterator<'a>", name="peek_while_fn")
+        ex = Exec(mir, max_paths=5000)
+        tokens = ex.enum_variants("Token")
+        st = State()
+        args = []
+        for an, aty in fn.args:
+            t = aty.strip()
+            args.append(Ref(ex.new_cell(st, Opq(z3.Const(f"a{an}", Val), t.lstrip("&").replace("mut ", "").strip()))) if t.startswith("&") else Opq(z3.Const(f"a{an}", Val), t))
+        ends = e2.run_kernel(run, ex, fn, args, st)
+        n_back = 0
+        lexf = e2.rust_struct("src/parse/lex/token.rs", "Lex")
+        for p in ends:
+            if p.kind != "loop_back":
+                continue
+            n_back += 1
+            s = p.state
+            pk = [e_ for e_ in p.events if e_["name"].endswith("Peekable::peek")]
+            chk = [e_ for e_ in p.events if e_["name"].endswith("Fn::call")]
+            body = [e_ for e_ in p.events if e_["name"].endswith("FnMut::call_mut")]
+            if not (pk and chk and body):
+                claims.append(z3.Implies(conj(p.cond), z3.BoolVal(False)))
+                continue
+            lexv = ex.project(s, ex.project(s, pk[-1]["ret"], ("v", "Some")), ("f", 0), "&&Lex")
+            tok = ex.project(s, lexv, ("f", lexf.index("token")), "Token")
+            claims.append(z3.Implies(conj(p.cond), z3.And(ex.discr(s, pk[-1]["ret"], "Option") == 1,
+                                                         chk[-1]["ret"] if z3.is_bool(chk[-1]["ret"]) else z3.BoolVal(False),
+                                                         ex.discr(s, tok, "Token") != tokens.index("Eof"),
+                                                         ex.discr(s, body[-1]["ret"], "Result") == 0)))
+        fn2 = e2.find1(mir, file=IT_RS, impl="LexIterator<'a>", name="eat_while")
+        ex2 = Exec(mir, max_paths=5000)
+        st2 = State()
+        a2 = [Ref(ex2.new_cell(st2, Opq(z3.Const("it", Val), "LexIterator"))), Ref(ex2.new_cell(st2, Opq(z3.Const("token", Val), "Token")))]
+        ends2 = e2.run_kernel(run, ex2, fn2, a2, st2)
+        claims2 = []
+        for p in ends2:
+            if p.kind != "loop_back":
+                continue
+            n_back += 1
+            eq = [e_ for e_ in p.events if e_["name"].endswith("PartialEq::eq")]
+            ei = [e_ for e_ in p.events if e_["name"].endswith("LexIterator::eat_if")]
+            ok = bool(eq) and bool(ei) and z3.eq(ei[-1]["argvals"][1], ex2.to_val(p.state, a2[1]))
+            claims2.append(z3.Implies(conj(p.cond), z3.And(z3.BoolVal(ok), eq[-1]["ret"] if eq and z3.is_bool(eq[-1]["ret"]) else z3.BoolVal(False))))
+        if n_back < 2:
+            raise Unsupported(f"{n_back} loop back edges")
+
+        def replay(model):
+            progs = ["def f(x: Int) => x +", "class A\n    def", "match x\n    1 =>", "if a then\n", "def x := [1, 2,", "def x := (1, 2", "import", "from a import",
+                     "def f(a: Int, ", "x handle\n    err: E =>", "for i in", "def x := {1 => 2,", "class A: B(", "type T: Int when", "\\x: Int =>"]
+            bad = []
+            old = os.environ.get("VERIF_REPLAY_TIMEOUT")
+            os.environ["VERIF_REPLAY_TIMEOUT"] = "20"       # a parser that needs 20 s for 20 characters does not terminate
+            try:
+                for src in progs:
+                    stt, out = rp.transpile(src)
+                    if stt not in ("OK", "ERR"):
+                        bad.append((src, stt))
+                        break
+            finally:
+                if old is None:
+                    os.environ.pop("VERIF_REPLAY_TIMEOUT", None)
+                else:
+                    os.environ["VERIF_REPLAY_TIMEOUT"] = old
+            if bad:
+                return {"reproduced": True, "role": f"parser-loop:{bad[0][1]}", "detail": f"{bad[0][0]!r}: {bad[0][1]}"}
+            return {"reproduced": False, "detail": f"{len(progs)} truncated programs end with diagnostics"}
+        e2.prove(run, ob, ex, [], conj(claims), {}, replay)
+        if ob.status == "discharged":
+            ob.status = "pending"
+            e2.prove(run, ob, ex2, [], conj(claims2), {}, replay)
+    except Unsupported as e:
+        ob.inconclusive(str(e))
+
+
 def run(run):
     mir = e2.load_mir(run)
     rp = common.Replay()
@@ -239,6 +321,7 @@ def run(run):
         run.ob("lexer-step-no-panic", "E2", "into_tokens encodable").inconclusive(str(e))
     ob_unify_arith(run, mir, rp)
     ob_reinsert_once(run, mir, rp)
+    ob_parser_loops(run, mir, rp)
     if os.environ.get("VERIF_NO_KANI") != "1":
         import e1
         names = list(e1.QUICK_B) + ["step_other_char"]
